@@ -273,6 +273,26 @@ func closedPipeIsEOF(c *core.Ctx) {
 	}
 	closed, bad := 0, 0
 	var where []string
+	// the variables that receive the pipe writer's error
+	pipeErr := map[types.Object]bool{}
+	ast.Inspect(fd.Body, func(n ast.Node) bool {
+		as, ok := n.(*ast.AssignStmt)
+		if !ok || len(as.Rhs) != 1 || len(as.Lhs) != 2 {
+			return true
+		}
+		call, isCall := astx.Unparen(as.Rhs[0]).(*ast.CallExpr)
+		if !isCall || !isMethodNamed(info, call, "Write") {
+			return true
+		}
+		if sel, isSel := call.Fun.(*ast.SelectorExpr); isSel {
+			if t := info.TypeOf(sel.X); t != nil && astx.TypeIs(t, "io", "PipeWriter") {
+				if o := astx.ObjOf(info, as.Lhs[1]); o != nil {
+					pipeErr[o] = true
+				}
+			}
+		}
+		return true
+	})
 	_, trunc := astx.ForEachExit(info, fd.Body, func(s *astx.State, kind astx.ExitKind, ret *ast.ReturnStmt) {
 		if ret == nil || len(ret.Results) != 2 {
 			return
@@ -285,7 +305,7 @@ func closedPipeIsEOF(c *core.Ctx) {
 			// an exit that hands the writer's error back untranslated must know that it is not the closed-pipe
 			// error (or that there is none): a further condition next to the errors.Is test (bytes written,
 			// a flag) lets io.ErrClosedPipe through on the paths where that condition fails
-			if v, isVar := astx.ObjOf(info, astx.Unparen(ret.Results[1])).(*types.Var); isVar && v != nil {
+			if v, isVar := astx.ObjOf(info, astx.Unparen(ret.Results[1])).(*types.Var); isVar && v != nil && pipeErr[v] {
 				excluded := s.HasFact(func(e ast.Expr, pol bool) bool {
 					if _, target, ok := astx.IsErrorsIs(info, e); ok {
 						return !pol && astx.IsPkgVar(info, target, "io", "ErrClosedPipe")
